@@ -70,7 +70,6 @@ pub fn gen_c14(sh: &mut Shards, o: &Opts) -> serde_json::Value {
         {
             for &(m, t, p) in &triples {
                 let c = Cfg { mc: m, tc: t, cp: p, full: false, n: 8, ssx: 0, ssy: 0 };
-                let cref = Cfg { tc: 1, cp: 1, ..c };
                 let yuv = || yuv444::<u8>(&YUV_PX, 2, 2, &c).expect("ctor");
                 let rgb = || Rgb::new(RGB_PX.to_vec(), 2, 2, tc(t), cp(p)).expect("rgb");
                 let lin = || LinearRgb::new(RGB_PX.to_vec(), 2, 2).expect("lin");
@@ -161,6 +160,107 @@ pub fn gen_c14(sh: &mut Shards, o: &Opts) -> serde_json::Value {
             }
         }
     }
+    // the table on OTHER layouts / depths / ranges for a slice of the triple space (every matrix x 5 transfers x 3 primaries):
+    // support, symmetry and the error named must not depend on subsampling, bit depth or range, and the matrix stage must
+    // ignore transfer and primaries also for foot-/head-room codes and out-of-gamut RGB
+    for &(nb, full, ssx, ssy) in &[(8u8, false, 1u8, 1u8), (8, true, 1, 0), (10, false, 1, 1), (10, false, 0, 0), (12, true, 1, 0), (16, false, 1, 1)] {
+        if nb == 8 {
+            n += layout_rows::<u8>(sh, nb, full, ssx, ssy);
+        } else {
+            n += layout_rows::<u16>(sh, nb, full, ssx, ssy);
+        }
+    }
     std::panic::set_hook(prev);
     serde_json::json!({"triples": n, "calls": n * 18, "distinct": n})
+}
+
+const LAY_RGB: [[f32; 3]; 8] =
+    [[0.0, 0.0, 0.0], [1.0, 1.0, 1.0], [0.75, 0.25, 0.5], [0.1, 0.6, 0.9], [1.25, -0.125, 0.5], [-0.25, 1.5, 0.0], [0.5, 0.5, 0.5], [0.0, 1.0, 2.0]];
+/// 4x2 picture with nominal, foot-room and head-room codes (8-bit values scaled to the depth; the extremes 0 / max too)
+fn lay_yuv(nb: u8) -> Vec<[u16; 3]> {
+    let k = u32::from(nb) - 8;
+    let max = ((1u32 << nb) - 1) as u16;
+    let s = |v: u32| (v << k) as u16;
+    vec![
+        [s(16), s(128), s(128)],
+        [s(235), s(3), s(252)],
+        [s(5), s(90), s(240)],
+        [s(250), s(54), s(34)],
+        [0, max, 0],
+        [max, 0, max],
+        [s(81), s(128), s(128)],
+        [s(145), s(252), s(3)],
+    ]
+}
+fn layout_rows<T: yuvxyb::Pixel>(sh: &mut Shards, nb: u8, full: bool, ssx: u8, ssy: u8) -> u64 {
+    let (w, h) = (4usize, 2usize);
+    let ypx = lay_yuv(nb);
+    let y2r = |c: &Cfg| -> (String, Option<Rgb>) {
+        let y: Yuv<T> = yuv444::<T>(&ypx, w, h, c).expect("ctor");
+        guard(|| Rgb::try_from(&y))
+    };
+    let r2y = |c: &Cfg, t: u8, p: u8| -> (String, Option<Yuv<T>>) {
+        let r = Rgb::new(LAY_RGB.to_vec(), w, h, tc(t), cp(p)).expect("rgb");
+        guard(|| Yuv::<T>::try_from((&r, c.yuv_config())))
+    };
+    let refs: Vec<(Option<Rgb>, Option<Yuv<T>>)> = (0u8..15)
+        .map(|m| {
+            let cref = Cfg { mc: m, tc: 1, cp: 1, full, n: nb, ssx, ssy };
+            (y2r(&cref).1, r2y(&cref, 1, 1).1)
+        })
+        .collect();
+    let mut n = 0;
+    for &m in MC_ALL.iter().filter(|&&x| x != 2) {
+        for &t in &[1u8, 11, 13, 3, 16] {
+            for &p in &[1u8, 9, 3] {
+                let c = Cfg { mc: m, tc: t, cp: p, full, n: nb, ssx, ssy };
+                let yuv = || yuv444::<T>(&ypx, w, h, &c).expect("ctor");
+                let rgb = || Rgb::new(LAY_RGB.to_vec(), w, h, tc(t), cp(p)).expect("rgb");
+                let lin = || LinearRgb::new(LAY_RGB.to_vec(), w, h).expect("lin");
+                let xyb = || Xyb::from(lin());
+                let (ref_y2r, ref_r2y) = &refs[m as usize];
+                let mut s = String::new();
+                let _ = write!(s, "\"ev\":\"c14row\",\"lay\":[{nb},{},{ssx},{ssy}],\"mc\":{m},\"tc\":{t},\"cp\":{p},\"res\":{{", u8::from(full));
+                let (a, out_y2r) = y2r(&c);
+                let _ = write!(s, "\"YuvToRgb\":\"{a}\"");
+                let (a, out_r2y) = r2y(&c, t, p);
+                let _ = write!(s, ",\"RgbToYuv\":\"{a}\"");
+                let _ = write!(s, ",\"YuvToLin\":\"{}\"", guard(|| LinearRgb::try_from(&yuv())).0);
+                let _ = write!(s, ",\"YuvToXyb\":\"{}\"", guard(|| Xyb::try_from(&yuv())).0);
+                let _ = write!(s, ",\"RgbToLin\":\"{}\"", guard(|| LinearRgb::try_from(rgb())).0);
+                let _ = write!(s, ",\"RgbToXyb\":\"{}\"", guard(|| Xyb::try_from(rgb())).0);
+                let _ = write!(s, ",\"LinToRgb\":\"{}\"", guard(|| Rgb::try_from((lin(), tc(t), cp(p)))).0);
+                let _ = write!(s, ",\"XybToRgb\":\"{}\"", guard(|| Rgb::try_from((xyb(), tc(t), cp(p)))).0);
+                let _ = write!(s, ",\"LinToYuv\":\"{}\"", guard(|| Yuv::<T>::try_from((lin(), c.yuv_config()))).0);
+                let _ = write!(s, ",\"XybToYuv\":\"{}\"", guard(|| Yuv::<T>::try_from((xyb(), c.yuv_config()))).0);
+                let _ = write!(s, ",\"LinToXyb\":\"{}\"", guard(|| Ok(Xyb::from(lin()))).0);
+                let _ = write!(s, ",\"XybToLin\":\"{}\"", guard(|| Ok(LinearRgb::from(xyb()))).0);
+                let _ = write!(s, ",\"LinToHsl\":\"{}\"", guard(|| Ok(Hsl::from(lin()))).0);
+                let _ = write!(s, ",\"HslToLin\":\"{}\"", guard(|| Ok(LinearRgb::from(Hsl::from(lin())))).0);
+                s.push('}');
+                for (k, v) in [("y2r", &out_y2r), ("y2r_ref", ref_y2r)] {
+                    let _ = write!(s, ",\"{k}\":");
+                    match v {
+                        Some(r) => list(&mut s, r.data(), px_bits),
+                        None => s.push_str("[]"),
+                    }
+                }
+                for (k, v) in [("r2y", &out_r2y), ("r2y_ref", ref_r2y)] {
+                    let _ = write!(s, ",\"{k}\":");
+                    match v {
+                        Some(y) => {
+                            let all: Vec<u16> = (0..3).flat_map(|p| plane_samples(y, p)).collect();
+                            list(&mut s, &all, |o, x| {
+                                let _ = write!(o, "{x}");
+                            });
+                        }
+                        None => s.push_str("[]"),
+                    }
+                }
+                sh.emit(&s);
+                n += 1;
+            }
+        }
+    }
+    n
 }
